@@ -4,8 +4,9 @@
 (* process per process segment of a history) validated step by step with   *)
 (* the monitors of History.tla.                                            *)
 (*                                                                         *)
-(* The file holds many traces (field tid), each a sequence of events, one  *)
-(* per operation performed, in execution order:                            *)
+(* The file holds many traces (field tid; w = the world = the inputs they   *)
+(* ran on), each a sequence of events, one per operation performed, in     *)
+(* execution order:                                                        *)
 (*   op      the operation record [k, a, g, n] of History (k also "Load",   *)
 (*           "Reload" for the harness' own loads and the final comparison  *)
 (*           with a fresh load)                                            *)
@@ -35,10 +36,11 @@ TraceLog == ndJsonDeserialize(IOEnv.TRACE_FILE)
 N == Len(TraceLog)
 
 VARIABLES l, tid,
-          aux,        \* key -> [resS, sc, seed, ep, src] of the memoised result
+          wid,        \* the world (inputs) of the current trace: the monitor's memory is shared by all traces of a world
+          aux,        \* key -> [resS, sc, seed, ep, src, tid] of the memoised result
           load0,      \* [db, ev]: digest of the first load of every gene / sample in this process
           tainted     \* genes whose catalogue or evidence changed in this process
-tvars == <<vars, l, tid, aux, load0, tainted>>
+tvars == <<vars, l, tid, wid, aux, load0, tainted>>
 
 Abs(x) == IF x < 0 THEN 0 - x ELSE x
 Tol == 10            \* 1e-5 in units of 1e-6: SOLVER precision band of a score-only difference
@@ -56,9 +58,9 @@ Res(e) == IF e.op.k = "Genotype"           \* the same shape as the part of a mu
 AuxOf(e, key) ==
     LET ps == {i \in DOMAIN e.per : PartKey(e, e.per[i]) = key}
     IN IF ps = {} \/ key = KeyOf(e.op)
-         THEN [resS |-> e.resS, sc |-> e.sc, seed |-> e.seed, ep |-> e.ep, src |-> e.op.k, i |-> e.i]
+         THEN [resS |-> e.resS, sc |-> e.sc, seed |-> e.seed, ep |-> e.ep, src |-> e.op.k, i |-> e.i, tid |-> e.tid]
          ELSE LET p == e.per[CHOOSE i \in ps : TRUE]
-              IN [resS |-> p.resS, sc |-> p.sc, seed |-> e.seed, ep |-> e.ep, src |-> e.op.k, i |-> e.i]
+              IN [resS |-> p.resS, sc |-> p.sc, seed |-> e.seed, ep |-> e.ep, src |-> e.op.k, i |-> e.i, tid |-> e.tid]
 
 (* which clause a result that differs from the memoised one violates *)
 Classify(e, key) ==
@@ -74,7 +76,7 @@ Classify(e, key) ==
              ELSE "DeterministicAcrossHashSeeds")
        ELSE IF key.k = "Genotype" /\ (e.op.k = "GenotypeMulti" \/ a0.src = "GenotypeMulti") /\ e.op.k # a0.src
             THEN "MultiIsUnionOfSingles"
-       ELSE IF a0.ep # a1.ep THEN "StoreIsWriteOnly"
+       ELSE IF a0.tid = a1.tid /\ a0.ep # a1.ep THEN "StoreIsWriteOnly"
        ELSE "Deterministic"
 
 Reads(e) == SeqRange(e.op.g)
@@ -115,16 +117,19 @@ Ev == TraceLog[l]
 Empty == [x \in {"_"} |-> ""]
 
 TraceInit ==
-    /\ l = 1 /\ tid = -1
+    /\ l = 1 /\ tid = -1 /\ wid = -1
     /\ db = Empty /\ ev = Empty /\ memo = <<>> /\ store = 0 /\ hashSeed = 0 /\ hist = <<>>
     /\ last = [op |-> NoOp, res |-> NoRes]
     /\ aux = <<>> /\ load0 = [db |-> Empty, ev |-> Empty] /\ tainted = {}
 
-(* first event of another trace: forget everything *)
+(* first event of another trace: a new process; the monitor's memory is kept as long as the world is the same *)
+(* (results are functions of the arguments, whatever ran before and in whichever process)                      *)
 NewTrace ==
     /\ l <= N /\ Ev.tid # tid
-    /\ tid' = Ev.tid
-    /\ db' = Empty /\ ev' = Empty /\ memo' = <<>> /\ aux' = <<>> /\ store' = 0 /\ hashSeed' = Ev.seed
+    /\ tid' = Ev.tid /\ wid' = Ev.w
+    /\ memo' = IF Ev.w = wid THEN memo ELSE <<>>
+    /\ aux' = IF Ev.w = wid THEN aux ELSE <<>>
+    /\ db' = Empty /\ ev' = Empty /\ store' = 0 /\ hashSeed' = Ev.seed
     /\ load0' = [db |-> Empty, ev |-> Empty] /\ tainted' = {}
     /\ UNCHANGED <<l, hist, last>>
 
@@ -135,7 +140,7 @@ Restart ==
     /\ db' = Empty /\ ev' = Empty /\ load0' = [db |-> Empty, ev |-> Empty] /\ tainted' = {}
     /\ last' = [op |-> Ev.op, res |-> NoRes]
     /\ l' = l + 1
-    /\ UNCHANGED <<tid, memo, aux, store, hist>>
+    /\ UNCHANGED <<tid, wid, memo, aux, store, hist>>
 
 AddFirst(f, g) == [x \in DOMAIN f \cup DOMAIN g |-> IF x \in DOMAIN f THEN f[x] ELSE g[x]]
 Step ==
@@ -155,9 +160,9 @@ Step ==
           /\ load0' = [db |-> AddFirst(load0.db, e.db), ev |-> AddFirst(load0.ev, e.ev)]
           /\ store' = e.ep /\ hashSeed' = e.seed
     /\ l' = l + 1
-    /\ UNCHANGED <<tid, hist>>
+    /\ UNCHANGED <<tid, wid, hist>>
 
-Finish == l = N + 1 /\ PrintT(<<"V", "DONE", N>>) /\ l' = N + 2 /\ UNCHANGED <<vars, tid, aux, load0, tainted>>
+Finish == l = N + 1 /\ PrintT(<<"V", "DONE", N>>) /\ l' = N + 2 /\ UNCHANGED <<vars, tid, wid, aux, load0, tainted>>
 
 TraceNext == NewTrace \/ Restart \/ Step \/ Finish
 TraceSpec == TraceInit /\ [][TraceNext]_tvars
